@@ -118,7 +118,10 @@ MFields(ps, vs, i) == IF i > Len(ps) THEN TRUE ELSE M(ps[i], vs[i]) /\ MFields(p
 (* collectEntryNodes + nodeToASTTypes                                      *)
 (***************************************************************************)
 ListCarriers == {"BlockStmt", "FieldList"}
-CatchAll == IF AnyEntry = "lists" THEN AllTypes \cup ListCarriers ELSE AllTypes
+\* a node type that no pattern can name but that a Symbol, and therefore every catch-all pattern, can start at:
+\* an instantiation with several type arguments, f[int, string]
+Unnamed == {"IndexListExpr"}
+CatchAll == IF AnyEntry = "lists" THEN AllTypes \cup ListCarriers \cup Unnamed ELSE AllTypes
 RECURSIVE Entry(_)
 Entry(p) ==
   CASE p.k = "or"   -> UNION { Entry(p.alts[i]) : i \in 1..Len(p.alts) }
